@@ -30,14 +30,13 @@ Example C10_nonvacuous :
 Proof. vm_compute. repeat split; reflexivity. Qed.
 
 (* ---- over every reachable state (Proofs/ReidxInv.v): after a successful replace_import_in_module of import
-   entry k with a body of fingerprint fp, outside D02 the function id p of the function that was this import (the id
+   entry k with a body of fingerprint fp, the function id p of the function that was this import (the id
    every former use carries; it differs from k when non-function imports precede it: the function is resolved
    through the import since the repair of D07) is mapped to the index at which the emitted module has exactly that
    body. *)
 Theorem C10_replaced_import_id_designates_the_new_body :
   forall m k fp m' r p it, wf m -> Reindex.step m (ImportToLocal k fp) = Ok (m', r) ->
   nthN (s_items (m_f m)) p = Some it -> it_imp it = Some k ->
-  okD02 SF m' = true ->
   forall l mp, index_space (m_f m') = Ok (l, mp) ->
   exists q, lookup mp p = Some q /\ nthN (space_of_model m' l SF) q = Some fp.
 Proof. exact i2l_binding. Qed.
